@@ -273,6 +273,33 @@ def plan():
     P["C16"] = [H("lib_badcluster_reply", "lib_bad_cluster_reply()", mod="lib", macro="h_lib", unwind=4, rules=R_COMMON, funcs=["lib.rs::Chitchat::process_message (BadCluster arm)"], cuts=[CUT_LISTENER],
                   bounds={"state": "own node only"}, desc="a rejection is terminal for the initiator and changes nothing", mem=8),
                 c16(0, False, ("quick", "thorough")), c16(0, True, ("quick", "thorough")), c16(1, False, ("thorough",)), c16(1, True, ("thorough",)), c16(2, False, ("thorough",)), c16(2, True, ("thorough",))]
+    # ---------------- C20
+    ARMS = {0: "Syn (own cluster)", 1: "SynAck", 2: "Ack", 3: "BadCluster", 4: "Syn (other cluster)", 5: "process_delta called directly, two messages in a row (each may or may not reset)"}
+    def c20m(arm, cb, tiers, mem=14):
+        return H(f"lib_c20_msg_{arm}_{'cb' if cb else 'nocb'}", f"lib_c20_message({arm}, {str(cb).lower()})", mod="lib", macro="h_lib_c20", unwind=4, tiers=tiers, rules=R_COMMON,
+                 covers=(["the delta of the message reset a copy", "the delta of the message reset nothing"] if arm in (1, 2, 5) else []) + (["two messages in a row each reset a copy"] if arm == 5 else []),
+                 funcs=["lib.rs::Chitchat::process_message", "lib.rs::Chitchat::process_delta"],
+                 cuts=[CUT_LISTENER, "ClusterState::apply_delta replaced by its contract: returns ANY bool (the reset flag) and counts its calls; the meaning of the flag is decided on the real function by c20_scalar_* / c20_apply_*",
+                       "Chitchat::report_heartbeats_in_digest replaced by a marker; compute_partial_delta_respecting_mtu / compute_digest by trivial stubs (the reply's content is not C20's subject)"],
+                 bounds={"message": ARMS[arm], "callback configured": cb, "digest": "one member, contents symbolic" if arm in (0, 1, 4) else "-", "delta": "empty (its content only matters to apply_delta, which is cut)"},
+                 desc="message -> process_delta -> callback glue: the callback runs exactly once per message iff applying its delta reported a reset, never otherwise (witnesses: the delta of a SynAck / Ack is applied)", mem=mem, timeout=2400)
+    def c20s(sections, tiers):
+        return H(f"c20_scalar_{sections}", f"c20_scalar({sections})", covers=["no reset"] + (["two copies reset by one message"] if sections == 2 else []), tiers=tiers, funcs=F_APPLY + ["state.rs::ClusterState::apply_delta"], cuts=[CUT_LISTENER],
+                 bounds={"members in the delta": sections, "copies": "key-less (possibly empty / only just created), watermark and max version any u64", "sections": "key-less, from / watermark / max version any u64"},
+                 desc="ClusterState::apply_delta returns true iff at least one copy was wiped and restarted from version 0 (however many were)", mem=24, timeout=2400, cap=3)
+    def c20t(mask, n, tiers):
+        return H(f"c20_status_{m3(mask)}_{n}", f"c20_status({mask}, {n}, 7)", covers=["reset taken", "incremental", "behind a collection but the section does not restart from 0: rejected"], tiers=tiers,
+                 funcs=F_APPLY, cuts=[CUT_LISTENER], bounds=dict(B3, receiver_mask=m3(mask), delta="ANY section with %d key-values (from, watermark, max version, keys, versions, statuses symbolic)" % n),
+                 desc="a section is reported as a reset iff the copy was actually reset (watermark moved to the sender's); a reset copy is rebuilt from 0 and nothing from before the reset survives", mem=14, timeout=1800)
+    def c20g(sections, unknown, tiers):
+        return H(f"c20_agg_{sections}_{format(unknown, '03b')}", f"c20_aggregate({sections}, {unknown})", macro="h_c20_agg", unwind=5, rules=R_COMMON + [(r"ClusterState::apply_delta", None, 5)], tiers=tiers, covers=["one of several copies reset", "every section about a known member applied"] + (["two copies reset by one message"] if sections - bin(unknown).count("1") >= 2 else []),
+                 funcs=["state.rs::ClusterState::apply_delta"], cuts=[CUT_LISTENER, "NodeState::apply_delta replaced by its contract: returns ANY of Reject / Apply / ApplyAfterReset per section and counts (what decides the status is c20_scalar_* / c20_apply_*)"],
+                 bounds={"members in the delta": sections, "members unknown to the receiver (bit i = i-th section)": format(unknown, "03b")},
+                 desc="the reset flag of a delta is the OR over its sections, whatever their number, order and status; sections about unknown members are skipped", mem=14, timeout=1800)
+    P["C20"] = [c20g(2, 0, ("quick", "thorough")), c20g(3, 0, ("thorough",)), c20g(3, 0b010, ("quick", "thorough")), c20g(3, 0b001, ("thorough",)),
+                c20m(5, True, ("quick", "thorough"), mem=8), c20m(5, False, ("quick", "thorough"), mem=8), c20m(2, True, ("quick", "thorough"), mem=8), c20m(1, True, ("quick", "thorough")), c20m(0, True, ("thorough",)),
+                c20m(3, True, ("thorough",), mem=8), c20m(4, True, ("thorough",)), c20m(2, False, ("thorough",), mem=8), c20m(1, False, ("thorough",)),
+                c20t(0b000, 1, ("quick", "thorough")), c20t(0b011, 2, ("quick", "thorough")), c20t(0b000, 0, ("thorough",)), c20t(0b001, 1, ("thorough",)), c20t(0b111, 1, ("thorough",)), c20t(0b011, 0, ("thorough",))]
     # ---------------- C15
     PFX = {0: "''", 1: "'a'", 2: "'e-acute'", 3: "'a e-acute'", 4: "'grinning-face (4 bytes)'", 5: "'aaaa' (decoy: never a prefix of a 2-symbol key, sorts inside the scanned range)"}
     def c15d(p0, p1, two, drop, forever, tiers):
